@@ -455,6 +455,14 @@ func (g *G) validFrame() []byte {
 	return frameOf(build(k, cs))
 }
 
+func (g *G) validFrameSmall() []byte {
+	f := g.validFrame()
+	if len(f) > 3000 {
+		f = []byte{0xc0, 0}
+	}
+	return f
+}
+
 // fragment splits bs into a random legal delivery.
 func (g *G) fragment(bs []byte, eofStyle int) string {
 	var parts []string
@@ -843,7 +851,23 @@ func genRead(g *G, n int, emit func(string)) {
 		emit(fmt.Sprintf("R 1 %s", hexs([]byte{byte(b), 2, 0, 1})))
 	}
 	for i := 0; i < n; i++ {
-		switch g.pick(10) {
+		switch g.pick(12) {
+		case 10: // any defined property, repeated, in any packet type
+			f := g.soupFrame()
+			if g.chance(25) {
+				f = g.mutate(f)
+			}
+			emit("R 2 " + hexs(f))
+		case 11: // a zero-padded remaining length; a stream of soup frames
+			if g.chance(50) {
+				emit("R 2 " + hexs(padLength(g.validFrameSmall())))
+			} else {
+				var all []byte
+				for j := 0; j < 2+g.pick(3); j++ {
+					all = append(all, g.soupFrame()...)
+				}
+				emit(fmt.Sprintf("R 6 %s", g.fragment(all, g.pick(2))))
+			}
 		case 0, 1: // one valid frame, one chunk
 			emit("R 2 " + hexs(g.validFrame()))
 		case 2: // sequence of frames plus trailing bytes, fragmented
